@@ -106,13 +106,17 @@ static void do_item(long i)
 }
 
 /* ---- isolated large lengths (block-count boundaries far above the dense range) ---- */
-static const size_t BIGL[] = { 4095, 4096, 4097, 8191, 8192, 8193, 16383, 16384, 16385, 65535, 65536, 65537, 131071, 131072, 131073, 1048575, 1048576, 1048577, 4194303, 4194305 };
+static const size_t BIGL[] = { 4095, 4096, 4097, 8191, 8192, 8193, 16383, 16384, 16385, 65535, 65536, 65537, 131071, 131072, 131073, 1048575, 1048576, 1048577, 4194303, 4194305,
+                               ((size_t) 1 << 30) + 65 };   /* 4 MiB + 1 / 1 GiB + 65: the block counter carries into its third / fourth byte (the only way to reach that for ciphers without an xor_ic form) */
 #define NBIGL (sizeof BIGL / sizeof BIGL[0])
 static void do_big(long it)
 {
     const cipher *C = &CIPHERS[it / (long) NBIGL]; size_t len = BIGL[it % (long) NBIGL], i; unsigned char key[32], nonce[24]; char keystr[160];
-    unsigned char *ks = malloc(len + 64), *m = malloc(len + 64), *o = malloc(len + 96); int api, r; uint64_t ic;
-    if (len > 1100000 && !thorough) { free(ks); free(m); free(o); return; }
+    unsigned char *ks, *m, *o; int api, r; uint64_t ic;
+    if (len > 1100000 && len != 4194305 && !thorough) return;
+    if (len > ((size_t) 1 << 30) && (C->ctrbits != 0 || !thorough)) return;
+    ks = malloc(len + 64); m = malloc(len + 64); o = malloc(len + 96);
+    if (!ks || !m || !o) { printf("INFO large length %zu skipped: out of memory\n", len); free(ks); free(m); free(o); return; }
     vf_pat(key, 32, PAT_R1, 71); vf_pat(nonce, 24, PAT_C, 72); vf_pat(m, len, PAT_R2, 73);
     for (api = 0; api < 3; api++) {
         if (api == 2 && C->ctrbits == 0) continue;
